@@ -185,6 +185,17 @@ func (e *fnEnc) run() (err error) {
 			}
 			e.obligationNoAssume("inv", fmt.Sprintf("loop %d:preserve:%s", li.ord, clauseLabel(cl, i)), tTrue, and(gs...), cl.Text, cl.Line)
 		}
+		if _, all := e.assignsTargets(); !all && len(bes) > 0 {
+			var gs []Term
+			for _, be := range bes {
+				if be.frame.S != "" {
+					gs = append(gs, imp(be.cond, be.frame))
+				}
+			}
+			if g := and(gs...); g.S != "true" {
+				e.obligationNoAssume("frame", fmt.Sprintf("loop %d", li.ord), tTrue, g, "frame is preserved by the loop body", "")
+			}
+		}
 		for i, cl := range e.loopClauses(li.ord, "loop-decreases") {
 			var gs []Term
 			for _, be := range bes {
@@ -425,6 +436,12 @@ func (e *fnEnc) encodeBlock(b *ssa.BasicBlock) {
 		env = e.envAt(b, nphi, st)
 		for _, cl := range e.loopClauses(li.ord, "loop-invariant") {
 			e.assert(imp(reach, e.evalBool(cl.E, env)))
+		}
+		// implicit invariant: the function's frame holds at the loop head
+		// (checked at exit like any other path; here it is assumed for the havocked
+		// components and re-established on every back edge, see backEdgeObligations)
+		if pi.pass == 2 {
+			e.assert(imp(reach, e.frameAssumption(st)))
 		}
 		// record decreases measure at the top of the iteration
 		for i, cl := range e.loopClauses(li.ord, "loop-decreases") {
